@@ -69,4 +69,10 @@ LEVEL["C15"] = dict(technique=T, text="Read actions leave the contract state unc
 LEVEL["C18"] = dict(technique=T, text="The design layer is a function of (state, operation) by construction (no choice in any update operator; TLC explores one successor per label). "
     "Each generated history is executed twice: replica A plainly, replica B in another process and directory with read-only calls (incl. traversals of "
     "empty and sparse small tables) spliced in; the digests of the three files after close must be equal (C18.equal).", note=TRUST)
+LEVEL["C12"] = dict(technique=T, text="15 golden images (5 key types x 3 histories with deletes, large slots and non-empty free lists) written by a build of the pinned release "
+    "4b82afd are committed with their contents; the trace starts from that contract state (event load): the current build must open each image with "
+    "identical contents (C12.content), leave it byte-identical when only read, keep every other conjunct (C05/C06/C09) while it is updated further, and "
+    "re-executing the stored history must reproduce the released files byte for byte (C12.stable). Placement: every decoded state of every check is judged "
+    "with the placement hash re-implemented in the decoder and recomputed inside TLC (AbyHash on 16-bit limbs) for all keys <= 40 bytes; header layout and "
+    "/8 scaling are what the decoder needs to find the slots (C12.header, C12.placement).", note=TRUST + " Golden images were produced once by bin/mkgolden from a worktree of the pinned commit.")
 NA = {}
